@@ -20,6 +20,7 @@ RULE = ("the interleaved event log (consumer step, pull(src,pos), end(src), call
 ASSUMPTIONS = ["stdlib 3.12 is the reference; events compared are exactly pulls, end checks, calls, yields",
                "generator-flavoured sources are compared with generator twins (a pull after exhaustion is invisible there)",
                "accumulate([]) without initial: only the pull/end events before the documented TypeError are compared"]
+EXHAUSTIVE_SUBSPACES = 'the enumerated spaces of C01 with instrumented class-based sources'
 EXHAUSTIVE = {"quick": False, "thorough": False}
 
 N_RANDOM = {"quick": 150000, "thorough": 6000000}
